@@ -171,7 +171,7 @@ def _analyze(template: Template, *, include_partials: bool) -> TemplateAnalysis:
     # Partial templates that have already been analyzed, with the names in scope.
     seen: set[tuple[str, frozenset[str]]] = set()
     if template.name:
-        seen.add((template.name, frozenset()))
+        seen.add((template.full_name(), frozenset()))
 
     def _visit(node: Node, template_name: str, scope: _StaticScope) -> None:
         # Update tags from node.token
@@ -235,7 +235,7 @@ def _analyze(template: Template, *, include_partials: bool) -> TemplateAnalysis:
             scope.pop()
 
     for node in template.nodes:
-        _visit(node, template.name, root_scope)
+        _visit(node, template.full_name(), root_scope)
 
     return TemplateAnalysis(
         variables=variables.as_dict(),
@@ -263,7 +263,7 @@ async def _analyze_async(
     # Partial templates that have already been analyzed, with the names in scope.
     seen: set[tuple[str, frozenset[str]]] = set()
     if template.name:
-        seen.add((template.name, frozenset()))
+        seen.add((template.full_name(), frozenset()))
 
     async def _visit(node: Node, template_name: str, scope: _StaticScope) -> None:
         # Update tags from node.token
@@ -327,7 +327,7 @@ async def _analyze_async(
             scope.pop()
 
     for node in template.nodes:
-        await _visit(node, template.name, root_scope)
+        await _visit(node, template.full_name(), root_scope)
 
     return TemplateAnalysis(
         variables=variables.as_dict(),
